@@ -213,6 +213,7 @@ func (s *Stream) WriteRtpPacket(packet *rtp.Packet) error {
 
 	atomic.AddUint64(&s.size, uint64(packet.Size()))
 
+	simhook.BeforeLock(&s.joinLock)
 	s.joinLock.Lock()
 	keyframe := s.cache.CachePack(packet)
 	simhook.Y("stream.writeRtp.betweenCacheAndSend")
@@ -243,6 +244,7 @@ func (s *Stream) WriteFlvTag(tag *flv.Tag) error {
 		return statusErrors[status]
 	}
 
+	simhook.BeforeLock(&s.flvJoinLock)
 	s.flvJoinLock.Lock()
 	keyframe := s.flvCache.CachePack(tag)
 	simhook.Y("stream.writeFlv.betweenCacheAndSend")
@@ -293,6 +295,7 @@ func (s *Stream) startConsume(consumer Consumer, packetType PacketType, extra st
 	}
 
 	simhook.Y("stream.startConsume.beforeGop")
+	simhook.BeforeLock(joinLock)
 	joinLock.Lock()
 	if useGopCache {
 		c.sendGop(cache) // 新消费者，先发送gop缓存
